@@ -136,7 +136,7 @@ def run(ctx):
                 for rform in ("req", "opt"):
                     g = [[("req", [a]), (rform, [b])], [("alias", xs)], [(tform, [1] if tform != "or" else [1, 3])], [("scalar", [])]]
                     cases.append((g, False))
-    n = 2000 if quick else 40000
+    n = 6000 if quick else 40000
     for _ in range(n):
         k = rng.randint(1, 6)
         miss = rng.random() < 0.15
@@ -212,8 +212,8 @@ def run(ctx):
     # and asked first: exactly the names the root text mentions, each once
     import re
     import check_c03 as C3
-    g3 = C3.allof_stream(rng, 100 if quick else 2000) + C3.rule_form_cases(rng, 100 if quick else 2000)
-    for _ in range(200 if quick else 4000):
+    g3 = C3.allof_stream(rng, 400 if quick else 2000) + C3.rule_form_cases(rng, 400 if quick else 2000)
+    for _ in range(800 if quick else 4000):
         k = rng.randint(2, 6)
         names, env = C3.gen_types(rng, k)
         g3.append((names, env, ("ref", [names[-1]], False), None))
